@@ -170,6 +170,8 @@ impl Aml for ProcessorNode {
     fn to_aml_bytes(&self, sink: &mut dyn AmlSink) {
         let reserved: u16 = 0;
 
+        // the node length is a single byte
+        assert!(self.len() <= 255);
         sink.byte(NodeType::Processor as u8);
         sink.byte(self.len() as u8);
         sink.word(reserved);
